@@ -7,7 +7,7 @@ import Mathlib.Tactic.SplitIfs
     branch except Piecewise: generated code (recursive calls played by the model) = `Convert.convert`.
     Main theorems: `Cellml/Tie/Convert.lean`. -/
 
-namespace Cellml.Tie
+namespace Cellml.Tie.PConvert
 open Units Infer Convert Cellml.Gen
 
 /-- `maybe_convert_expr` (generated) = `Convert.maybeConv`, for every expression, flag, source unit and target (or
@@ -293,4 +293,4 @@ theorem tie_other (n : String) (tgt : PyUnit) : GEN (.other n) tgt = MODEL (.oth
 
 end
 
-end Cellml.Tie
+end Cellml.Tie.PConvert
